@@ -110,6 +110,7 @@ def run(chk):
                        "function body leaves its value by design); the height invariant per program point and the top-level "
                        "boundaries cover the property without that false alarm"]
     chk.floor = 1200
+    chk.rule += '; plus functions left through return from statement and operand positions (15 bodies x 4 callers), loop conditions built from && / ||, match over literal patterns of every kind, map literals with coinciding keys'
     jobs = []
     iters = [3, 100, 10000]
     for (lname, ltmpl) in LOOPS:
